@@ -160,7 +160,9 @@ class Task:
         self.killed = False
         self.daemon = False  # daemon tasks do not keep sim.run() going (server pools, heartbeats)
         proc._ident_n += 1
-        self.ident = 1000 * (proc.index + 1) + proc._ident_n
+        # like real thread idents, unique within a process only: the first thread of every
+        # (forked) process typically has the very same ident
+        self.ident = 1000 + proc._ident_n
         self.thread = threading.Thread(target=self._run, daemon=True, name="sim-" + name)
         self.real_ident: int | None = None
         self.on_done: list[Callable[[], None]] = []
